@@ -14,7 +14,8 @@ def parseGraph (s : String) : Graph :=
       | some a => some (a, (ds.splitOn ",").filterMap (·.trimAscii.toString.toNat?))
       | none => none
     | _ => none
-  { deps := fun x => match rows.find? (·.1 == x) with | some r => r.2 | none => [] }
+  { size := (rows.map (·.1)).foldl (fun a b => max a (b + 1)) 0,
+    deps := fun x => match rows.find? (·.1 == x) with | some r => r.2 | none => [] }
 
 def parseEvent (t : String) : Option Event :=
   let body := (t.drop 1).toString
